@@ -163,9 +163,11 @@ Record oans := { an_status : Z; an_basis : basis; an_sol : cache; an_rn : bool (
 Definition dims_ok_b (p : prob) (b : basis) : bool :=
   (Nat.eqb (length (ba_c b)) (ncol p) && Nat.eqb (length (ba_r b)) (nrow p))%bool.
 
-(* QSopt_primal (dual = false) / QSopt_dual (dual = true) with opt_work; returns (state, rval <> 0) *)
+(* QSopt_primal (dual = false) / QSopt_dual (dual = true) with opt_work; returns (state, rval <> 0).
+   Both entry points answer from the cache only while factorok holds (QSopt_primal since the repair of 2026-10-01:
+   a basis loaded after the solve is not the one the cached solution belongs to). *)
 Definition api_solve (s : api) (dual : bool) (r : oans) : api * bool :=
-  let skip := match a_basis s, a_cache s with Some _, Some _ => (negb dual || a_factorok s)%bool | _, _ => false end in
+  let skip := match a_basis s, a_cache s with Some _, Some _ => a_factorok s | _, _ => false end in
   if skip then (s, false)
   else match a_basis s with
        | Some b => if dims_ok_b (a_p s) b then
